@@ -2,7 +2,7 @@
 true default, names that collide after suffixing / joining, every trajectory-constraint kind with establishing and
 destroying actions, quantifiers inside timed goals).  Each entry: (label, compilation kinds, problem)."""
 from fractions import Fraction
-from unified_planning.shortcuts import (Problem, Fluent, InstantaneousAction, DurativeAction, UserType, Object, BoolType, IntType,
+from unified_planning.shortcuts import (GE, Problem, Fluent, InstantaneousAction, DurativeAction, UserType, Object, BoolType, IntType,
                                         Variable, Exists, Forall, And, Or, Not, Equals, Always, Sometime, AtMostOnce,
                                         SometimeBefore, SometimeAfter, GlobalStartTiming, ClosedTimeInterval, StartTiming, EndTiming)
 from unified_planning.engines import CompilationKind as CK
@@ -77,6 +77,81 @@ def colliding_names_disjunctive(order):
     for n in order:
         pr.add_action(acts[n])
     pr.add_goal(And(a, c))
+    return pr
+
+
+def quantified_variable_named_like_fresh(varname, marked_l2):
+    """an object-valued fluent `pos(r) -> Loc` (type name capitalised) read inside a quantifier of the goal whose variable carries a name the
+    usertype-fluents remover derives for its own fresh variable (`pos_loc`, `pos_Loc`, `pos_loc_0`)"""
+    pr = Problem(f"quantified_variable_named_like_fresh_{varname}_{marked_l2}")
+    Robot, Loc = UserType("Robot"), UserType("Loc")
+    pos = Fluent("pos", Loc, r=Robot)
+    marked = Fluent("marked", BoolType(), l=Loc)
+    r1, l1, l2 = Object("r1", Robot), Object("l1", Loc), Object("l2", Loc)
+    pr.add_fluent(pos)
+    pr.add_fluent(marked, default_initial_value=False)
+    pr.add_objects([r1, l1, l2])
+    pr.set_initial_value(pos(r1), l1)
+    pr.set_initial_value(marked(l2), marked_l2)
+    move = InstantaneousAction("move", l_to=Loc)
+    move.add_effect(pos(r1), move.parameter("l_to"))
+    pr.add_action(move)
+    mark = InstantaneousAction("mark", l=Loc)
+    mark.add_precondition(Equals(pos(r1), mark.parameter("l")))
+    mark.add_effect(marked(mark.parameter("l")), True)
+    pr.add_action(mark)
+    v = Variable(varname, Loc)
+    pr.add_goal(Forall(Or(Equals(v, pos(r1)), Not(marked(v))), v))
+    pr.add_goal(Exists(marked(v), v))
+    return pr
+
+
+def boolean_copy_assignment(src0, goal):
+    """a Boolean fluent assigned the value of ANOTHER fluent (not a constant) whose negation a later action or the goal needs: the negative
+    conditions remover has to keep the companion of the assigned fluent equal to the negated value"""
+    pr = Problem(f"boolean_copy_assignment_{src0}_{goal}")
+    src, dst, done = Fluent("src", BoolType()), Fluent("dst", BoolType()), Fluent("done", BoolType())
+    pr.add_fluent(src, default_initial_value=src0)
+    pr.add_fluent(dst, default_initial_value=not src0)
+    pr.add_fluent(done, default_initial_value=False)
+    flip = InstantaneousAction("flip_off")
+    flip.add_precondition(src)
+    flip.add_effect(src, False)
+    on = InstantaneousAction("flip_on")
+    on.add_precondition(Not(src))
+    on.add_effect(src, True)
+    sync = InstantaneousAction("sync")
+    sync.add_effect(dst, src)
+    fin = InstantaneousAction("finish")
+    fin.add_precondition(Not(dst) if goal == "neg" else dst)
+    fin.add_effect(done, True)
+    for x in (flip, on, sync, fin):
+        pr.add_action(x)
+    pr.add_goal(done)
+    return pr
+
+
+def disjunctive_effect_condition(which, goal="both"):
+    """conditional effects whose condition has several disjuncts in disjunctive normal form; initially exactly ONE disjunct (`which`) holds.  `win`
+    is needed by the goal (completeness: the effect must still fire), `lose` is forbidden by it (soundness: it must not be lost)"""
+    pr = Problem(f"disjunctive_effect_condition_{which}_{goal}")
+    a, b, c, win, lose, done = (Fluent(n, BoolType()) for n in ("a", "b", "c", "win", "lose", "done"))
+    for f in (a, b, c):
+        pr.add_fluent(f, default_initial_value=False)
+    pr.set_initial_value({"a": a, "b": b, "c": c}[which], True)
+    for f in (win, lose, done):
+        pr.add_fluent(f, default_initial_value=False)
+    good = InstantaneousAction("good")
+    good.add_effect(win, True, Or(a, b, c))
+    risky = InstantaneousAction("risky")
+    risky.add_effect(lose, True, Or(And(a, Not(b)), b, c))
+    risky.add_effect(done, True)
+    safe = InstantaneousAction("safe")
+    safe.add_precondition(Or(win, lose))
+    safe.add_effect(done, True)
+    for x in (good, risky, safe):
+        pr.add_action(x)
+    pr.add_goal({"both": And(win, done, Not(lose)), "sound": And(done, Not(lose)), "complete": And(win, done)}[goal])
     return pr
 
 
@@ -228,8 +303,35 @@ def half_bounded_types():
     return pr
 
 
+def undefined_read_in_effect_condition():
+    """a numeric fluent WITHOUT initial value read only in the condition of an effect on another (defined) fluent, in the value of an effect on
+    another fluent, and in a precondition -- one action each, all applicable only after the fluent has been assigned"""
+    pr = Problem("undefined_read_in_effect_condition")
+    x, y, flag, done = Fluent("x", IntType()), Fluent("y", IntType(0, 9)), Fluent("flag", BoolType()), Fluent("done", BoolType())
+    pr.add_fluent(x)                                    # no initial value
+    pr.add_fluent(y, default_initial_value=0)
+    pr.add_fluent(flag, default_initial_value=False)
+    pr.add_fluent(done, default_initial_value=False)
+    probe = InstantaneousAction("probe")
+    probe.add_effect(flag, True, GE(x, 1))
+    probe.add_effect(done, True)
+    copy = InstantaneousAction("copy")
+    copy.add_effect(y, x)
+    copy.add_effect(done, True)
+    need = InstantaneousAction("need")
+    need.add_precondition(GE(x, 0))
+    need.add_effect(done, True)
+    set_x = InstantaneousAction("set_x")
+    set_x.add_effect(x, 2)
+    for a in (probe, copy, need, set_x):
+        pr.add_action(a)
+    pr.add_goal(done)
+    return pr
+
+
 def crafted_cases():
-    out = [("crafted:half_bounded_types", (CK.BOUNDED_TYPES_REMOVING,), half_bounded_types()),
+    out = [("crafted:undefined_read_in_effect_condition", (CK.UNDEFINED_INITIAL_NUMERIC_REMOVING,), undefined_read_in_effect_condition()),
+           ("crafted:half_bounded_types", (CK.BOUNDED_TYPES_REMOVING,), half_bounded_types()),
            ("crafted:half_bounded_types+grounding", (CK.BOUNDED_TYPES_REMOVING, CK.GROUNDING), half_bounded_types()),
            ("crafted:bounded_parametrized", (CK.BOUNDED_TYPES_REMOVING,), bounded_parametrized()),
            ("crafted:bounded_parametrized+grounding", (CK.BOUNDED_TYPES_REMOVING, CK.GROUNDING), bounded_parametrized()),
@@ -242,6 +344,16 @@ def crafted_cases():
     for order in (("tick", "tick_0", "tick_1", "tick_0_0"), ("tick_0_0", "tick_1", "tick_0", "tick"), ("tick_0", "tick", "tick_0_0", "tick_1")):
         out.append(("crafted:colliding_names_disjunctive", (CK.DISJUNCTIVE_CONDITIONS_REMOVING,), colliding_names_disjunctive(order)))
         out.append(("crafted:colliding_names_disjunctive+grounding", (CK.DISJUNCTIVE_CONDITIONS_REMOVING, CK.GROUNDING), colliding_names_disjunctive(order)))
+    for vn in ("pos_loc", "pos_Loc", "pos_loc_0"):
+        for m in (True, False):
+            out.append(("crafted:quantified_variable_named_like_fresh", (CK.USERTYPE_FLUENTS_REMOVING,), quantified_variable_named_like_fresh(vn, m)))
+    for src0 in (True, False):
+        for goal in ("neg", "pos"):
+            out.append(("crafted:boolean_copy_assignment", (CK.NEGATIVE_CONDITIONS_REMOVING,), boolean_copy_assignment(src0, goal)))
+    for which in ("a", "b", "c"):
+        for goal in ("both", "sound", "complete"):
+            out.append(("crafted:disjunctive_effect_condition", (CK.DISJUNCTIVE_CONDITIONS_REMOVING,), disjunctive_effect_condition(which, goal)))
+    out.append(("crafted:disjunctive_effect_condition+grounding", (CK.DISJUNCTIVE_CONDITIONS_REMOVING, CK.GROUNDING), disjunctive_effect_condition("a")))
     for same in (True, False):
         out.append(("crafted:repeated_conditional_assignment", (CK.CONDITIONAL_EFFECTS_REMOVING,), repeated_conditional_assignment(same)))
         out.append(("crafted:repeated_conditional_assignment+grounding", (CK.CONDITIONAL_EFFECTS_REMOVING, CK.GROUNDING), repeated_conditional_assignment(same)))
